@@ -34,3 +34,13 @@ PROPS["C06"].update(
     level_note="Trusted: Coq kernel + vm_compute; Coq's primitive floats and FloatAxioms; Go harness; string oracles (ParseFloat, ToUpper, csvq's StrToTime) carried as data; IEEE-754 behaviour of Go float64 on amd64. The expression fragment excludes LIKE, row values, sub-queries, functions.",
     design_ref="DESIGN.md section 5 (C06)",
 )
+
+
+# per-property modules lib/props_cXX.py may define PROP (a dict like the ones above) -- loaded here
+import glob as _glob, importlib.util as _ilu, os as _os
+for _p in sorted(_glob.glob(_os.path.join(_os.path.dirname(_os.path.abspath(__file__)), "props_c*.py"))):
+    _spec = _ilu.spec_from_file_location(_os.path.basename(_p)[:-3], _p)
+    _m = _ilu.module_from_spec(_spec)
+    _spec.loader.exec_module(_m)
+    PROPS[_m.PROP["id"]] = _m.PROP
+    HOOK_COMMITS.extend(getattr(_m, "HOOK_COMMITS", []))
